@@ -70,3 +70,6 @@ def replays(failed):
     yield ("end beyond the list", "xs := [1, 2, 3]\nprint(xs[1:4])\n", exp(err="outside the list bounds"))
     yield ("start after end", "xs := [1, 2, 3]\nprint(xs[2:1])\n", exp(err="outside the list bounds"))
     yield ("string end beyond", "s := \"abc\"\nprint(s[1:4])\n", exp(err="outside the string bounds"))
+    yield ("the empty range at the end is defined", "s := \"abc\"\nprint(s[3:] == \"\")\nprint(s[3:3] == \"\")\nprint(\"\"[:] == \"\")\nxs := [1]\nprint(xs[1:] == [])\n", exp("true\ntrue\ntrue\ntrue\n"))
+    yield ("one past the end is an error", "s := \"abc\"\nprint(s[4:])\n", exp(err="outside the string bounds"))
+    yield ("start after end is an error", "xs := [1, 2, 3]\nprint(xs[2:1])\n", exp(err="outside the list bounds"))
